@@ -149,6 +149,10 @@ impl Slatepack {
 		let bin_meta = SlatepackEncMetadataBin(self.encrypted_meta.clone());
 		let mut to_encrypt = byte_ser::to_bytes(&bin_meta).map_err(|_| Error::SlatepackSer)?;
 
+		// The sender now lives inside the data to be encrypted only, don't
+		// leave a cleartext copy that the JSON serialization would emit
+		self.encrypted_meta.sender = None;
+
 		if self.future_test_mode {
 			Slatepack::pad_test_data(&mut to_encrypt);
 		}
